@@ -20,7 +20,11 @@ TRUSTED_BASE = [
     "Lean runtime (Rat instance): refIndex evaluated on the exact decimal values the user typed",
     "argparse float conversion of the -r option; SQLite views",
     "the Python harness: decimal sweep generator, database copies, tolerance 1e-6 relative for 'zero'",
+    "translator tools/gen_schema.py: spowtd/schema.sql as parsed by SQLite itself (PRAGMA table_info / index_list / "
+    "foreign_key_list; CHECK clauses and view bodies cut from the stored CREATE text) -> lean/SchemaTie/Generated.lean; "
+    "the declarations the proofs assume are re-checked by `rfl` on every run (SchemaTie/Curves.lean)",
 ]
+SCHEMA_TIE = ('Curves',)
 ASSUMPTIONS = [
     "the decision is made by the tool in floating point on what the user typed in decimal: references are swept as "
     "decimal strings k*step (exact in Decimal), the model receives the same decimals as rationals",
